@@ -75,6 +75,7 @@ BINARIES = {
               "harness": "tsfmt"},
     "tscorder": {"sources": ["harness/tsc_order.cpp", "engine/rc_driver.cpp"], "flavour": "plain", "libs": RC_LIBS,
                  "harness": "tscorder"},
+    "csvw": {"sources": ["harness/csvw.cpp", "engine/rc_driver.cpp"], "flavour": "asan", "libs": RC_LIBS, "harness": "csvw"},
 }
 
 # known-finding class -> binary that implements its probe
@@ -119,6 +120,7 @@ ENGINES = {
     "named": {"path": "harness/named.cpp", "serves": ["C19"], "kind": "named-args / JSON sink harness through a manual backend"},
     "rot": {"path": "harness/rotating.cpp", "serves": ["C14", "C15"], "kind": "RotatingFileSink driver with file-system reference model and two-tier schedule oracle"},
     "alloc": {"path": "harness/alloc_catalog.cpp", "serves": ["C11"], "kind": "allocation-interposed statement catalog (-O2, no sanitizers)"},
+    "csvw": {"path": "harness/csvw.cpp", "serves": ["C17"], "kind": "quill::CsvWriter on the real backend thread: generated histories of construction (five overloads), rows, flush, destruction with rows queued, re-creation, shared sinks; file / recording-sink reference model"},
     "crashkid": {"path": "harness/crashkid.cpp", "serves": ["C07"], "kind": "fork/exec fault injection: generated child programs, all boundaries x termination kinds"},
     "tsfmt": {"path": "harness/tsfmt.cpp", "serves": ["C13"], "kind": "TimestampFormatter vs libc strftime"},
     "tscorder": {"path": "harness/tsc_order.cpp", "serves": ["C05", "C06"], "kind": "TSC-clock (default clock source) ordering harness: harness thread = backend, real worker threads logging one operation at a time, real time relative to the grace period; measured precondition"},
@@ -283,8 +285,13 @@ PROPERTIES = {
         "rule": ("case = generated BackendOptions + program of up to 120 ops (Create, Remove, RemoveBlocking, DropSinkRef, Log, Flush, "
                  "StartThread, ExitThread, Poll with bursts at Y1..Y6); non-trivial = a removal was requested while statements of that "
                  "logger were still unwritten AND a name was re-created"),
-        "assumptions": ["CsvWriter not exercised"],
-        "jobs": _simjobs("C17", ["sim_bb1k", "sim_ub", "sim_bd1k"], quick_procs=3) + [_rtjob("rt_ub_asan", "C17", quick_cases=12, quick_procs=3), _rtjob("rt_ub_tsan", "C17", quick_cases=40)],
+        "assumptions": ["CsvWriter rows from two different threads carry no mutual order claim"],
+        "jobs": _simjobs("C17", ["sim_bb1k", "sim_ub", "sim_bd1k"], quick_procs=3) + [_rtjob("rt_ub_asan", "C17", quick_cases=12, quick_procs=3), _rtjob("rt_ub_tsan", "C17", quick_cases=40)] + [
+            # quill::CsvWriter (an anchor of C17): real backend thread, five constructor overloads, files and recording sinks,
+            # destruction with rows still queued, re-creation over the same file / another sink; schedule-independent oracle
+            {"bin": "csvw", "params": {}, "realthread": True,
+             "quick": {"cases": 400, "procs": 3, "maxlen": 220},
+             "thorough": {"cases": 8000, "procs": 8, "maxlen": 400, "params": {"maxops": "48"}}}],
     },
     "C18": {
         "technique": "stateful property-based testing of backtrace storage against a reference ring per logger (exact expected sink sequence)",
